@@ -114,6 +114,10 @@ func (s *Schema) AddType(name string, sc jschema.Schema) (err error) {
 			return fmt.Errorf("load added type: %w", err)
 		}
 
+		if typ.inner.RootNode() == nil {
+			return errors.NewDocumentError(typ.file, errors.Format(errors.ErrEmptyType, name))
+		}
+
 		s.inner.AddNamedType(name, typ.inner, s.file, 0)
 	case *regex.Schema:
 		pattern, err := typ.Pattern()
@@ -179,6 +183,10 @@ func (s *Schema) Validate(document jschema.Document) (err error) {
 }
 
 func (s *Schema) validate(document jschema.Document) error {
+	if s.inner.RootNode() == nil {
+		return errors.NewDocumentError(s.file, errors.ErrEmptySchema)
+	}
+
 	tree := validator.NewTree(
 		validator.NodeValidatorList(s.inner.RootNode(), *s.inner, nil),
 	)
